@@ -155,7 +155,7 @@ theorem DInv.step {s : State} (h : TInv s) (hd : DInv s) (op : Op) (hdisc : disc
   | rollback a => simp only [Reg3.step]; split <;> first | exact hd | (intros; thr_auto)
   | spawnRemote a name => simp only [Reg3.step]; split <;> first | exact hd | (intros; thr_auto)
   | publish a t st =>
-    simp only [disc, Bool.or_eq_true, decide_eq_true_eq] at hdisc
+    simp only [disc, Bool.or_eq_true, decide_eq_true_eq, Bool.not_eq_eq_eq_not, Bool.not_true] at hdisc
     simp only [Reg3.step]
     split
     · split
